@@ -115,15 +115,6 @@ Theorem C01_wellformed_example : wf ex_skel /\ dim_unique ex_skel.
 Proof. exact ex_skel_wf. Qed.
 Print Assumptions C01_wellformed_example.
 
-(* the netCDF dimension name set on a Bounds is NOT always kept: an earlier bounds dimension of the same
-   size is reused (faithful to _netcdf_name(dimsize=, role='bounds')); known finding
-   bounds-dimension-name-shared-by-size *)
-Theorem C01_bounds_dimension_name_refuted :
-  exists o f, wf f /\ (exists c b, In c (f_cons f) /\ c_bounds c = Some b /\ b_ncdim b = Some "nv") /\
-    forall r, read_skel (write_skel o f) = [r] -> forall rc, In rc (rs_cons r) -> r_bdim rc <> Some "nv".
-Proof. exact bounds_dimension_name_refuted. Qed.
-Print Assumptions C01_bounds_dimension_name_refuted.
-
 (* The same under the executable guard C01.Run.check_wf, which the harness evaluates on every in-fragment case
    the implementation ran on (so the cases compared with cfdm lie inside the domain of the theorems):
    one construct, isomorphic, injective labelling, and every construct of f is among those read. *)
